@@ -42,6 +42,9 @@ type c10Params struct {
 	// PlainCaches: the servers use an application-supplied SessionCache (a map behind a mutex that hands out the
 	// very object it was given) instead of the built-in LRU
 	PlainCaches bool `json:"plain_caches,omitempty"`
+	// SrvCap1: the servers' LRU caches hold one session each: a handshake with somebody else (the forged-id client)
+	// evicts the session the client still holds, which must then fall back to a full handshake
+	SrvCap1 bool `json:"srv_cap1,omitempty"`
 }
 
 // plainT / plainD: the simplest SessionCache an application could write.
@@ -149,6 +152,7 @@ func drawC10(src *vs.Src) *c10Params {
 		p.ClientCap = 1 + src.Intn(2)
 	}
 	p.PlainCaches = src.Bool(1, 3)
+	p.SrvCap1 = !p.PlainCaches && src.Bool(1, 3)
 	return p
 }
 
@@ -189,8 +193,14 @@ func (c10) Run(c *Case, src *vs.Src) *Result {
 		if p.PlainCaches {
 			return &plainT{m: map[string]*tlcp.SessionState{}}, &plainD{m: map[string]*dtlcp.SessionState{}}
 		}
+		if p.SrvCap1 {
+			return tlcp.NewLRUSessionCache(1), dtlcp.NewLRUSessionCache(1)
+		}
 		return tlcp.NewLRUSessionCache(64), dtlcp.NewLRUSessionCache(64)
 	}
+	// with one-entry server caches: servers whose cache content the model does not know (a ruined handshake may or
+	// may not have got as far as storing a session)
+	srvUnknown := map[int]bool{}
 	for i := range tcS {
 		tcS[i], dcS[i] = newServerCaches()
 	}
@@ -293,8 +303,9 @@ func (c10) Run(c *Case, src *vs.Src) *Result {
 			} else if reason != vs.Done && !(p.Stack == DTLCP && reason == vs.TimeUp) || srvErr != nil || !cs.Done {
 				r.Violate("forged-not-transparent", sigp+" forged-id-full-handshake-failed", "%s: offering an unknown session id did not lead to a successful full handshake: run %s %v, server err %v, client sent %v", tag, reason, unf, srvErr, sent)
 			}
-			if cs.Done && !cs.Resumed {
-				// the server cached a new session; nobody will use it
+			if cs.Done && !cs.Resumed && p.SrvCap1 {
+				// the server cached a new session that nobody will use; it took the place of whatever was there
+				serverHas[op.Server] = map[string]*c10Session{}
 			}
 			continue
 		}
@@ -308,6 +319,7 @@ func (c10) Run(c *Case, src *vs.Src) *Result {
 		out := &HSOut{}
 		if op.Op == "ruin" {
 			nEvents++
+			srvUnknown[op.Server] = p.SrvCap1
 			// the server side never answers properly: stream cut right away / datagram server absent
 			if pair.Pipe != nil && op.Late {
 				// the stream ends right before the server's ChangeCipherSpec record
@@ -407,6 +419,14 @@ func (c10) Run(c *Case, src *vs.Src) *Result {
 			r.Violate("fallback-failed", fmt.Sprintf("%s connection-failed expect-resume=%v", sigp, expect), "%s: honest connection failed (expected resumption=%v, client offered %x): run %s %v, client %v, server %v", tag, expect, offered, reason, unf, out.CErr, out.SErr)
 			return r
 		}
+		if srvUnknown[op.Server] {
+			// the model does not know what the one-entry cache holds: take the outcome as it is and learn from it
+			expect = out.SCS.Resumed
+			if !expect {
+				serverHas[op.Server] = map[string]*c10Session{}
+			}
+			delete(srvUnknown, op.Server)
+		}
 		if out.CCS.Resumed != expect || out.SCS.Resumed != expect {
 			r.Violate("resumption-prediction", fmt.Sprintf("%s resumed=%v/%v expected=%v", sigp, out.CCS.Resumed, out.SCS.Resumed, expect), "%s: DidResume client=%v server=%v, the cache model expects %v (client offered %x, server holds it: %v)", tag, out.CCS.Resumed, out.SCS.Resumed, expect, offered, prev != nil && serverHas[op.Server][prev.id] != nil)
 		}
@@ -448,6 +468,9 @@ func (c10) Run(c *Case, src *vs.Src) *Result {
 			allIDs[sid] = true
 			s := &c10Session{id: sid, suite: out.CCS.Suite, server: op.Server, peer: out.CCS.Peer, speer: out.SCS.Peer, set: certSet, cr: cr, sr: sr, fin: out.CFin}
 			clientHas[op.Server] = s
+			if p.SrvCap1 {
+				serverHas[op.Server] = map[string]*c10Session{}
+			}
 			serverHas[op.Server][sid] = s
 		}
 	}
